@@ -169,6 +169,30 @@ CDisAll(d, ign) ==
   /\ UNCHANGED <<m, ntx>>
   /\ Log([act |-> "DisassociateAll", d |-> d, ign |-> ign, res |-> "ok"])
 
+\* entity interface in a context transaction: entities.by_handle(descriptor), change / add / drop a state, write_entity
+CEntUpdate(c, t) ==
+  /\ Open("context") /\ m.C[c].present
+  /\ LET item == [m.C[c] EXCEPT !.sver = @ + 1, !.tok = t] @@ [c |-> c, op |-> "upd"]
+         i == Idx(tx.c, "c", c)
+     IN tx' = Op([tx EXCEPT !.c = IF i = 0 THEN Append(@, item) ELSE [@ EXCEPT ![i] = item]])
+  /\ UNCHANGED <<m, ntx>>
+  /\ Log([act |-> "EntityUpdateContextState", c |-> c, t |-> t, res |-> "ok"])
+
+CEntNew(c) ==
+  /\ Open("context") /\ ~m.C[c].present /\ ~InC(c) /\ m.D[CtxOf[c]].present
+  /\ tx' = Op([tx EXCEPT !.c = Append(@, [c |-> c, op |-> "new", present |-> TRUE, d |-> CtxOf[c],
+                                          sver |-> NextVer(m.lastC[c]), dver |-> m.D[CtxOf[c]].ver, tok |-> 0,
+                                          assoc |-> "No", bind |-> -1, unbind |-> -1])])
+  /\ UNCHANGED <<m, ntx>>
+  /\ Log([act |-> "EntityNewContextState", c |-> c, res |-> "ok"])
+
+\* a context state dropped from the entity: it is deleted from the MDIB (no report can announce it)
+CEntDelete(c) ==
+  /\ Open("context") /\ m.C[c].present /\ ~InC(c)
+  /\ tx' = Op([tx EXCEPT !.c = Append(@, m.C[c] @@ [c |-> c, op |-> "del"])])
+  /\ UNCHANGED <<m, ntx>>
+  /\ Log([act |-> "EntityDeleteContextState", c |-> c, res |-> "ok"])
+
 \* ------------------------------------------------------------------ descriptor transactions
 DGet(h) == /\ Open("descriptor")
            /\ IF m.D[h].present /\ ~InD(h)
@@ -315,7 +339,10 @@ ApplyS(mm, it) == [mm EXCEPT !.S[it.h] = [present |-> TRUE, sver |-> it.sver, dv
 RECURSIVE FoldS(_, _, _)
 FoldS(mm, items, i) == IF i > Len(items) THEN mm ELSE FoldS(ApplyS(mm, items[i]), items, i + 1)
 
-ApplyC(mm, it) == [mm EXCEPT !.C[it.c] = [present |-> TRUE, d |-> it.d, sver |-> it.sver, dver |-> it.dver,
+ApplyC(mm, it) == IF it.op = "del"
+                  THEN [mm EXCEPT !.C[it.c] = NoC, !.lastC[it.c] = mm.C[it.c].sver]
+                  ELSE
+                  [mm EXCEPT !.C[it.c] = [present |-> TRUE, d |-> it.d, sver |-> it.sver, dver |-> it.dver,
                                            tok |-> it.tok, assoc |-> it.assoc, bind |-> it.bind, unbind |-> it.unbind]]
 RECURSIVE FoldC(_, _, _)
 FoldC(mm, items, i) == IF i > Len(items) THEN mm ELSE FoldC(ApplyC(mm, items[i]), items, i + 1)
@@ -354,7 +381,8 @@ Next == \/ \E src \in {"getter", "entity", "result"}, t \in Tok : MutateCopy(src
         \/ \E h \in H, t \in Tok : SetSTok(h, t) \/ SetDTok(h, t) \/ SWriteEntity(h, t) \/ DWriteEntity(h, t)
         \/ \E h \in H, p \in H \cup {Ext}, w \in BOOLEAN : DAdd(h, p, w)
         \/ \E h \in H, p \in H : DNewEntity(h, p)
-        \/ \E c \in CH : CGet(c)
+        \/ \E c \in CH : CGet(c) \/ CEntNew(c) \/ CEntDelete(c)
+        \/ \E c \in CH, t \in Tok : CEntUpdate(c, t)
         \/ \E c \in CH, a \in BOOLEAN, e \in BOOLEAN : CMk(c, a, e)
         \/ \E c \in CH, t \in Tok : SetCTok(c, t)
         \/ \E d \in H, ign \in CH \cup {NoneP} : CDisAll(d, ign)
